@@ -16,6 +16,8 @@ pub enum A {
     Xp(SocketAddr), Xm(SocketAddr), Cn(u16), Da(Vec<u8>),
     // only the reference encoder can produce these (rustrtc has no encoder for them)
     Xr(SocketAddr), Ec(u16, String), Unk(u16, Vec<u8>), RawRe(Vec<u8>), RawNo(Vec<u8>),
+    /// ERROR-CODE with non-zero reserved bits (RFC 5389 §15.6: 21 reserved bits, 3-bit class, 8-bit number): (reserved bits above the class, class, number)
+    EcBits(u8, u8, u8),
 }
 
 #[derive(Clone, Debug)]
@@ -68,7 +70,7 @@ impl A {
         match self { A::Un(_) => "username", A::Re(_) | A::RawRe(_) => "realm", A::No(_) | A::RawNo(_) => "nonce", A::Sw(_) => "software",
             A::Rt(_) => "requested-transport", A::Lt(_) => "lifetime", A::Pr(_) => "priority", A::Ic(_) => "ice-controlling",
             A::Id(_) => "ice-controlled", A::Uc => "use-candidate", A::Xp(_) => "xor-peer", A::Xm(_) => "xor-mapped",
-            A::Cn(_) => "channel-number", A::Da(_) => "data", A::Xr(_) => "xor-relayed", A::Ec(..) => "error-code", A::Unk(..) => "unknown" }
+            A::Cn(_) => "channel-number", A::Da(_) => "data", A::Xr(_) => "xor-relayed", A::Ec(..) | A::EcBits(..) => "error-code", A::Unk(..) => "unknown" }
     }
     /// attribute type code and value bytes per RFC 5389 / 5766 / 8445 (XOR addresses are computed by the
     /// reference crate, see `encode_reference`).
@@ -82,6 +84,7 @@ impl A {
             A::Id(v) => (0x8029, v.to_be_bytes().to_vec()), A::Uc => (0x0025, vec![]),
             A::Cn(v) => (0x000C, vec![(v >> 8) as u8, *v as u8, 0, 0]), A::Da(b) => (0x0013, b.clone()),
             A::Ec(code, reason) => { let mut v = vec![0, 0, (code / 100) as u8, (code % 100) as u8]; v.extend_from_slice(reason.as_bytes()); (0x0009, v) }
+            A::EcBits(r, c, n) => (0x0009, vec![0xff, 0xff, (r << 3) | (c & 7), *n, b'!']),
             A::Unk(t, b) => (*t, b.clone()),
             A::Xp(_) => (0x0012, vec![]), A::Xm(_) => (0x0020, vec![]), A::Xr(_) => (0x0016, vec![]),
         }
@@ -241,7 +244,7 @@ pub fn oracle_dec(s: &Spec, d: &StunDecoded) -> Vec<(String, String)> {
     let (mut xm, mut xp, mut xr, mut re, mut no, mut da, mut lt, mut ec, mut uc) = (None, None, None, None, None, None, None, None, false);
     for a in &s.attrs { match a {
         A::Xm(x) => xm = Some(*x), A::Xp(x) => xp = Some(*x), A::Xr(x) => xr = Some(*x), A::Re(x) => re = Some(x.clone()),
-        A::No(x) => no = Some(x.clone()), A::Da(x) => da = Some(x.clone()), A::Lt(x) => lt = Some(*x), A::Ec(c, _) => ec = Some(*c),
+        A::No(x) => no = Some(x.clone()), A::Da(x) => da = Some(x.clone()), A::Lt(x) => lt = Some(*x), A::Ec(c, _) => ec = Some(*c), A::EcBits(_, c, n) => ec = Some((*c as u16 & 7) * 100 + *n as u16),
         A::Uc => uc = true,
         A::RawRe(b) => re = String::from_utf8(b.clone()).ok(), A::RawNo(b) => no = String::from_utf8(b.clone()).ok(),
         _ => {} } }
@@ -348,7 +351,7 @@ pub fn gen_ref_spec(rng: &mut Rng) -> Spec {
             1 => { let n = rng.below(30) as usize; A::Ec(*rng.pick(&[300u16, 400, 401, 420, 437, 438, 441, 486, 500, 508, 699]), utf8_of_len(rng, n)) }
             2 => { let n = rng.below(24) as usize; A::Unk(*rng.pick(&[0x0001u16, 0x0003, 0x000A, 0x0017, 0x0018, 0x001A, 0x0022, 0x8023, 0xC057, 0xffff]), rng.bytes(n)) }
             3 => { let n = rng.below(12) as usize; A::RawRe(rng.bytes(n)) }
-            4 => { let n = rng.below(12) as usize; A::RawNo(rng.bytes(n)) }
+            4 => { if rng.chance(1, 2) { let n = rng.below(12) as usize; A::RawNo(rng.bytes(n)) } else { A::EcBits(rng.range(1, 31) as u8, rng.range(3, 6) as u8, rng.below(100) as u8) } }
             _ => A::Lt(rng.next() as u32),
         };
         let pos = rng.below(s.attrs.len() as u64 + 1) as usize;
